@@ -283,7 +283,185 @@ def fam_bitwise(vt, cfg):
     return I
 
 
+# ---------------------------------------------------------------------------
+# C07 selection, min/max/clamp, abs/negate, average, midpoint
+
+def imin(c, x, y):
+    return T.opc("call:llvm.smin" if c.vt.signed else "call:llvm.umin", c.vt.eb, x, y)
+
+
+def imax(c, x, y):
+    return T.opc("call:llvm.smax" if c.vt.signed else "call:llvm.umax", c.vt.eb, x, y)
+
+
+def lanes_ok_clamp(vt):
+    def ok(vals, names):
+        lo, hi = vals[names.index("lo")], vals[names.index("hi")]
+        for i in range(vt.n):
+            a = (lo >> (i * vt.eb)) & ((1 << vt.eb) - 1)
+            b = (hi >> (i * vt.eb)) & ((1 << vt.eb) - 1)
+            if vt.signed:
+                a, b = T._signed(a, vt.eb), T._signed(b, vt.eb)
+            if vt.is_float:
+                return None     # float clamp judged structurally only
+            if not a < b:
+                return False
+        return True
+    return ok
+
+
+def avg_expected(c, x, y):
+    eb = c.vt.eb
+    W = eb + 2
+    if c.vt.signed:
+        s_ = T.add(T.sext(x, W), T.sext(y, W))
+        return T.slice_(T.op("sdiv", W, s_, T.const(W, 2)), 0, eb)
+    s_ = T.add(T.zext(x, W), T.zext(y, W))
+    return T.slice_(s_, 1, eb)
+
+
+def mid_expected(c, x, y):
+    eb = c.vt.eb
+    W = eb + 2
+    ext = T.sext if c.vt.signed else T.zext
+    d = T.sub(ext(y, W), ext(x, W))
+    return T.slice_(T.add(ext(x, W), T.op("sdiv", W, d, T.const(W, 2))), 0, eb)
+
+
+def fam_select(vt, cfg):
+    I = []
+    eb = vt.eb
+    MV = [("M", "m"), ("V", "a")]
+    I.append(Inst("blend", [("M", "m"), ("V", "a"), ("V", "b")], "V", "avel::blend(m, a, b)",
+                  lambda c: c.pack([T.select(mb, x, y) for mb, x, y in zip(c.mbits("m"), c.lanes("a"), c.lanes("b"))])))
+    I.append(Inst("keep", MV, "V", "avel::keep(m, a)",
+                  lambda c: c.pack([T.select(mb, x, T.const(eb, 0)) for mb, x in zip(c.mbits("m"), c.lanes("a"))])))
+    I.append(Inst("clear", MV, "V", "avel::clear(m, a)",
+                  lambda c: c.pack([T.select(mb, T.const(eb, 0), x) for mb, x in zip(c.mbits("m"), c.lanes("a"))])))
+    if vt.is_int:
+        I.append(Inst("min", VV, "V", "avel::min(a, b)", lanewise2(imin)))
+        I.append(Inst("max", VV, "V", "avel::max(a, b)", lanewise2(imax)))
+        I.append(Inst("minmax0", VV, "V", "avel::minmax(a, b)[0]", lanewise2(imin)))
+        I.append(Inst("minmax1", VV, "V", "avel::minmax(a, b)[1]", lanewise2(imax)))
+        I.append(Inst("clamp", [("V", "a"), ("V", "lo"), ("V", "hi")], "V", "avel::clamp(a, lo, hi)",
+                      lambda c: c.pack([imin(c, imax(c, x, l), h) for x, l, h in
+                                        zip(c.lanes("a"), c.lanes("lo"), c.lanes("hi"))]),
+                      ))
+        I[-1].env_ok = lanes_ok_clamp(vt)
+        I.append(Inst("average", VV, "V", "avel::average(a, b)", lanewise2(avg_expected)))
+        I.append(Inst("midpoint", VV, "V", "avel::midpoint(a, b)", lanewise2(mid_expected)))
+        if vt.signed:
+            ab = lambda c, x: T.select(T.msb(x), T.neg(x), x)
+            I.append(Inst("abs", [("V", "a")], "V", "avel::abs(a)", lanewise1(ab)))
+            I.append(Inst("neg_abs", [("V", "a")], "V", "avel::neg_abs(a)",
+                          lanewise1(lambda c, x: T.neg(T.select(T.msb(x), T.neg(x), x)))))
+            I.append(Inst("negate", MV, "V", "avel::negate(m, a)",
+                          lambda c: c.pack([T.select(mb, T.neg(x), x) for mb, x in zip(c.mbits("m"), c.lanes("a"))])))
+    else:
+        clr = lambda c, x: T.concat([T.slice_(x, 0, eb - 1), T.const(1, 0)])
+        st = lambda c, x: T.concat([T.slice_(x, 0, eb - 1), T.const(1, 1)])
+        I.append(Inst("fabs", [("V", "a")], "V", "avel::abs(a)", lanewise1(clr)))
+        I.append(Inst("fneg_abs", [("V", "a")], "V", "avel::neg_abs(a)", lanewise1(st)))
+        I.append(Inst("fnegate", MV, "V", "avel::negate(m, a)",
+                      lambda c: c.pack([T.concat([T.slice_(x, 0, eb - 1), T.xor(T.msb(x), mb)])
+                                        for mb, x in zip(c.mbits("m"), c.lanes("a"))])))
+        I.append(Inst("fcopysign", VV, "V", "avel::copysign(a, b)",
+                      lanewise2(lambda c, x, y: T.concat([T.slice_(x, 0, eb - 1), T.msb(y)]))))
+        I.append(Inst("fmin", VV, "V", "avel::min(a, b)", None, judge=judge_fminmax("min")))
+        I.append(Inst("fmax", VV, "V", "avel::max(a, b)", None, judge=judge_fminmax("max")))
+        I.append(Inst("fminmax0", VV, "V", "avel::minmax(a, b)[0]", None, judge=judge_fminmax("min")))
+        I.append(Inst("fminmax1", VV, "V", "avel::minmax(a, b)[1]", None, judge=judge_fminmax("max")))
+    return I
+
+
+def judge_fminmax(which):
+    """float min/max for non-NaN inputs: lane must be select(fcmp P(x,y), p, q)
+    over the same lane of a and b that picks the smaller/larger operand in the
+    'less' and 'greater' orderings (either operand when equal)."""
+    from common import HOLDS, REFUTED, UNDECIDED
+
+    def j(ctx, inst, S):
+        vt = ctx.vt
+        eb = vt.eb
+        actual = S.ret
+        rule = "float %s: per lane select(fcmp(a_i,b_i)) choosing the %s operand for ordered inputs" % (
+            which, "smaller" if which == "min" else "larger")
+        if actual is None or actual[1] != vt.bits:
+            return UNDECIDED, "no value", rule, None
+        for i in range(vt.n):
+            a, b = T.slice_(ctx.args["a"], i * eb, eb), T.slice_(ctx.args["b"], i * eb, eb)
+            t = T.slice_(actual, i * eb, eb)
+            if t[0] in ("call:llvm.minnum", "call:llvm.maxnum", "call:llvm.minimum", "call:llvm.maximum"):
+                ok = ("min" in t[0]) == (which == "min") and {id(t[2]), id(t[3])} == {id(a), id(b)}
+                if ok:
+                    continue
+                return REFUTED, T.show(t, 4, ctx.names), rule, {"lane": i, "note": "wrong direction or operands"}
+            if t[0] != "select" or t[2][0] != "fcmp":
+                return UNDECIDED, T.show(t, 4, ctx.names), rule, None
+            c = t[2]
+            if {id(c[3]), id(c[4])} != {id(a), id(b)} or id(t[3]) not in (id(a), id(b)) or id(t[4]) not in (id(a), id(b)):
+                return UNDECIDED, T.show(t, 4, ctx.names), rule, None
+            for rel in ("lt", "gt", "eq"):
+                # ordering of (c[3], c[4])
+                x_is_a = c[3] is a
+                r = rel if x_is_a else {"lt": "gt", "gt": "lt", "eq": "eq"}[rel]
+                truth = {"oeq": r == "eq", "one": r != "eq", "olt": r == "lt", "ole": r != "gt", "ogt": r == "gt",
+                         "oge": r != "lt", "ueq": r == "eq", "une": r != "eq", "ult": r == "lt", "ule": r != "gt",
+                         "ugt": r == "gt", "uge": r != "lt", "ord": True, "uno": False}[c[2]]
+                picked = t[3] if truth else t[4]
+                if rel == "eq":
+                    continue
+                want = a if ((rel == "lt") == (which == "min")) else b
+                if picked is not want:
+                    return REFUTED, T.show(t, 4, ctx.names), rule, {
+                        "lane": i, "ordering": "a %s b" % rel, "picked": "a" if picked is a else "b"}
+        if S.unknown:
+            return UNDECIDED, "unmodelled %s" % S.unknown[:2], rule, None
+        return HOLDS, T.show(T.slice_(actual, 0, eb), 4, ctx.names), rule, None
+    return j
+
+
+# ---------------------------------------------------------------------------
+# C06 bit counting
+
+def fam_bitcount(vt, cfg):
+    if not vt.is_int:
+        return []
+    I = []
+    eb = vt.eb
+    A = [("V", "a")]
+    z0 = T.const(1, 0)
+    ctlz = lambda x: T.op("call:llvm.ctlz", eb, x, z0)
+    cttz = lambda x: T.op("call:llvm.cttz", eb, x, z0)
+    E = T.const(eb, eb)
+
+    def add(name, f, ret="V", opt=True, dom=None):
+        i = Inst(name, A, ret, "avel::%s(a)" % name, f)
+        i.optional = opt
+        if dom:
+            i.lane_dom = dom
+        I.append(i)
+    add("popcount", lanewise1(lambda c, x: T.ctpop(eb, x)))
+    add("countl_zero", lanewise1(lambda c, x: ctlz(x)))
+    add("countl_one", lanewise1(lambda c, x: ctlz(T.not_(x))))
+    add("countr_zero", lanewise1(lambda c, x: cttz(x)))
+    add("countr_one", lanewise1(lambda c, x: cttz(T.not_(x))))
+    add("bit_width", lanewise1(lambda c, x: T.sub(E, ctlz(x))))
+    nonneg = (lambda v: v & ((1 << (eb - 1)) - 1)) if vt.signed else None
+    add("bit_floor", lanewise1(lambda c, x: T.op("spec:bit_floor", eb, x)), dom=nonneg)
+    add("bit_ceil", lanewise1(lambda c, x: T.op("spec:bit_ceil", eb, x)), dom=nonneg)
+    I.append(Inst("has_single_bit", A, "M", "avel::has_single_bit(a)",
+                  lambda c: c.pack_mask([T.icmp("eq", T.ctpop(eb, x), T.const(eb, 1)) for x in c.lanes("a")])))
+    I[-1].optional = True
+    add("byteswap", lanewise1(lambda c, x: T.concat([T.slice_(x, eb - 8 - 8 * i, 8) for i in range(eb // 8)])))
+    if vt.signed:
+        add("countl_sign", lanewise1(lambda c, x: T.sub(ctlz(T.xor(x, T.ashr_c(x, 1))), T.const(eb, 1))))
+    return I
+
+
 FAMILIES = {
+    "select": fam_select,
+    "bitcount": fam_bitcount,
     "mask": fam_mask,
     "bitwise": fam_bitwise,
     "intarith": fam_intarith,
